@@ -205,6 +205,7 @@ var profiles = map[string]profile{
 			return []PlayOpts{
 				{Order: "gen", Builds: 0.4, Rejects: 0.5, BuildEach: true, BigIdx: true, RichBuilds: 0.3, Rebuilds: 0.5},
 				{Order: "topo", BuildEach: true, BuildHistory: hist, BigIdx: true},
+				{Order: "gen", BuildEach: true, ResetAfter: 3 + r.Intn(20), Reweigh: true},
 			}
 		},
 	},
@@ -312,6 +313,14 @@ var profiles = map[string]profile{
 	"c10": {
 		gen: func(r *rand.Rand, k int) GenCfg {
 			g := baseGen(r, k)
+			if k%14 == 13 { // 13-16 validators with many equal weights: the canonical order (weight, then id) decides which root is the Atropos
+				n := 13 + r.Intn(4)
+				w := make([]int, n)
+				for i := range w {
+					w[i] = 1 + i%3
+				}
+				return GenCfg{Weights: w, Epochs: 1, EpochEvents: 9 * n, MaxParents: n, OldParent: 0.02}
+			}
 			if k%2 == 0 {
 				g.Weights = [][]int{{1, 1}, {1, 1, 1, 1}, {2, 2}, {2, 2, 2, 2}, {1, 1, 1, 1, 1, 1}, {2, 2, 1, 1}, {3, 3, 3, 3, 3, 3}}[(k/2)%7]
 				g.MaxParents = len(g.Weights)
